@@ -68,9 +68,25 @@ def lean_sources():
     return sorted(out)
 
 
-def forbidden_scan():
+def import_closure(modules):
+    """files (relative to lean/) reachable from the given modules through `import N2k.* / Driver.*` lines"""
+    seen, todo = set(), list(modules)
+    while todo:
+        m = todo.pop()
+        rel = m.replace('.', '/') + '.lean'
+        if rel in seen or not os.path.exists(os.path.join(LEAN, rel)):
+            continue
+        seen.add(rel)
+        for imp in re.findall(r'^import\s+((?:N2k|Driver)[\w.]*)', open(os.path.join(LEAN, rel)).read(), re.M):
+            todo.append(imp)
+    return seen
+
+
+def forbidden_scan(modules):
+    """sorry/admit/axiom/native_decide/... in any file the property's theorems or the driver depend on"""
     hits = []
-    for p in lean_sources():
+    for rel in sorted(import_closure(list(modules) + ['Driver.Main'])):
+        p = os.path.join(LEAN, rel)
         for i, line in enumerate(strip_comments(open(p).read()).split('\n'), 1):
             if FORBIDDEN.search(line):
                 hits.append('%s:%d: %s' % (os.path.relpath(p, VERIF), i, line.strip()))
@@ -403,7 +419,7 @@ def main():
     gen_obl = 0
     for tname, st in trans_stats.items():
         gen_obl += st.get('obligations', 0) if isinstance(st, dict) else 0
-    hits = forbidden_scan()
+    hits = forbidden_scan(modules)
     if hits:
         problems.append('forbidden tokens: ' + '; '.join(hits[:5]))
     if tier == 'thorough' and ok and not spec.get('skip_leanchecker'):
